@@ -141,6 +141,11 @@ func (n *Node) processSyncRequest(rpc net.RPC, cmd *net.SyncRequest) {
 			"diff_length":    len(eventDiff),
 		}).Debugf("Selecting max %d events", limit)
 
+		// the requested limit comes from the remote peer
+		if limit < 0 {
+			limit = 0
+		}
+
 		if limit < len(eventDiff) {
 			eventDiff = eventDiff[:limit]
 		}
